@@ -353,7 +353,12 @@ func c16r4(p *Prog, r *Reporter) {
 		}
 		facts := map[string]bool{}
 		fieldIdxOK := true
-		for _, b := range fn.Blocks {
+		// the test may live in the function itself or in a helper it calls (same package, two levels)
+		var blocks []*ssa.BasicBlock
+		for _, g := range withHelpers(p, fn, 2) {
+			blocks = append(blocks, g.Blocks...)
+		}
+		for _, b := range blocks {
 			for _, ins := range b.Instrs {
 				switch x := ins.(type) {
 				case *ssa.BinOp:
@@ -578,4 +583,27 @@ func c16r8(p *Prog, r *Reporter) {
 			}
 		}
 	}
+}
+
+// withHelpers: fn and the functions of the same package it calls statically, up to the given depth.
+func withHelpers(p *Prog, fn *ssa.Function, depth int) []*ssa.Function {
+	seen := map[*ssa.Function]bool{fn: true}
+	out := []*ssa.Function{fn}
+	frontier := []*ssa.Function{fn}
+	for d := 0; d < depth; d++ {
+		var next []*ssa.Function
+		for _, g := range frontier {
+			for _, site := range callsIn(g) {
+				sc := site.Common().StaticCallee()
+				if sc == nil || sc.Pkg == nil || fn.Pkg == nil || sc.Pkg != fn.Pkg || sc.Blocks == nil || seen[sc] {
+					continue
+				}
+				seen[sc] = true
+				out = append(out, sc)
+				next = append(next, sc)
+			}
+		}
+		frontier = next
+	}
+	return out
 }
